@@ -482,6 +482,8 @@ func reproduces(ob *Obligation, o nativeOutcome) bool {
 		return o.Result == "panic" || o.Result == "timeout" || o.Result == "oom"
 	case "alloc":
 		return o.Result == "oom" || o.Result == "panic" || o.Result == "timeout"
+	case "loop":
+		return o.Result == "timeout" || o.Result == "oom"
 	}
 	return false
 }
